@@ -35,3 +35,23 @@ Print Assumptions c05_services_once.
 Theorem c05_http_methods : map http_method_of std_kinds = [[71;69;84]; [80;85;84]; [80;79;83;84]; [68;69;76;69;84;69]; [80;65;84;67;72]]%N.
 Proof. exact http_methods_exact. Qed.
 Print Assumptions c05_http_methods.
+
+(* ---- the other half: against ANY conformant server the resolution SUCCEEDS ----
+   U: the server's files, names unique, dependencies inside U and acyclic (rank: any topological rank); the server may answer
+   with full closures, only the requested file, nothing it already sent on the stream, extra files, in any order - as long as an
+   answer consists of its own files, none ranked above the requested one, and contains the requested file (the file that
+   defines the requested symbol) unless that was already sent; the recursion limit exceeds the depth of the graph.
+   Then the dependency search returns a set, and a description is built that lists exactly the requested services
+   (with c05_closure: that set has every name once and is closed under dependencies). *)
+From GB Require Import Proofs.ReflCompleteProofs.
+Theorem c05_conformant_server_succeeds :
+  forall (U : list rfile) (rank : bytes -> nat),
+  (forall f d, In f U -> In d (rf_deps f) -> In d (fnames U) /\ (rank d < rank (rf_name f))%nat) ->
+  forall ans_sym ans_file,
+  file_conformant U rank ans_file -> sym_conformant U ans_sym -> NoDup (fnames U) ->
+  forall limit names,
+  (forall n, In n (fnames U) -> (rank n < limit)%nat) ->
+  (forall s, In s names -> exists f, In f U /\ defines f s) ->
+  exists res svcs, collect ans_sym ans_file limit names = Some res /\ describe names res = Some svcs /\ map rs_name svcs = names.
+Proof. exact describe_complete. Qed.
+Print Assumptions c05_conformant_server_succeeds.
